@@ -118,6 +118,22 @@ fn gen_history(rng: &mut Rng, max_steps: usize) -> (Vec<usize>, Vec<Step>) {
         if rng.chance(2, 3) {
             steps.push(Step::Request(0, "textDocument/definition", rng.below(60)));
         }
+        if rng.chance(1, 3) {
+            // ... or the other way round: the main module goes from one importing variant to another (a document gains
+            // or loses its references to the library) while the library stays what it is, with a look at every step
+            let mut first = true;
+            for _ in 0..rng.range(2, 4) {
+                let t = variants(0)[*rng.pick(&IMPORTING_MAIN)].to_owned();
+                if first {
+                    steps.push(Step::Open(0, t));
+                    first = false;
+                } else {
+                    steps.push(Step::Change(0, vec![(None, t)]));
+                }
+                steps.push(Step::Checkpoint);
+            }
+            return (disk, steps);
+        }
         let mut is_open = false;
         for _ in 0..rng.range(2, 5) {
             let t = (*rng.pick(&lib)).to_owned();
